@@ -407,6 +407,8 @@ PLAIN_SHAPES = [s.replace("C1", _C1).replace("C2", _C2) for s in [
     # names outside the usual casing conventions, the lint allowed on the item by the user (as for field names kept from a wire format)
     "#[allow(non_snake_case)] struct S { fooBar: C1 }", "#[allow(non_snake_case)] struct S { fooBar: C1, BazQux: C2 }", "#[allow(non_snake_case)] enum S { A { fooBar: C1 }, B }",
     "#[allow(non_snake_case)] enum S { A { fooBar: C1, BazQux: C2 } }",
+    # (generic parameters outside the conventions: every impl re-declares them - known finding c01-generic-parameter-naming-lints)
+    "#[allow(non_camel_case_types, non_upper_case_globals)] struct S<t, const n: usize>(H<t, n>);", "#[allow(non_camel_case_types)] enum S<r#type> { A(H<r#type, 1>), B }",
     # the deriving type itself deprecated: the expansion names it in every impl header and body
     "#[deprecated] struct S(C1);", "#[deprecated] struct S { a: C1 }", "#[deprecated] struct S(C1, C2);", "#[deprecated] enum S { A(C1), B }", "#[deprecated] enum S { A = 1, B }",
     "#[deprecated] enum S { A(C1), B(C2) }", "#[deprecated] struct S<T>(H<T, 1>);", "#[deprecated] enum S { A { a: C1, b: C2 } }",
@@ -551,7 +553,8 @@ def part_accepted_compiles(chk, thorough):
             chk.outcome("degenerate-prerequisite-derive-diagnosed")
             continue
         src = "%s#[derive(derive_more::%s)] %s" % (PREREQ.get(d, ""), d, it)
-        cases.append(Case("g%d" % len(cases), "#[allow(unused_imports)] use super::*;\n" + src, has_run=False, meta=dict(derive=d, src=src, twin=it, on_all=(d, it) in on_all)))
+        cases.append(Case("g%d" % len(cases), "#[allow(unused_imports)] use super::*;\n" + src, has_run=False, meta=dict(derive=d, src=src, twin=it, on_all=(d, it) in on_all,
+                                                                                                                   known="c01-generic-parameter-naming-lints" if re.search(r"S<(t|r#type)\b", it.replace(" ", "")) else None)))
     # the companion impl a derive builds on written by hand instead of derived (deref_mut.md: "requires that the type also implements
     # Deref, so usually Deref should also be derived"; likewise IndexMut/Index and Sum/Add), on generic types
     # known finding: `#[deref_mut(forward)]` adds `where FieldTy: DerefMut`; once that predicate mentions a parameter it hides what
